@@ -63,6 +63,25 @@ CLAIMED = {
         "screened by the property oracle, 150 plus objections judged in Coq); which events the stochastic engines draw is C07's subject; "
         "binary64 vs exact at 1e-9 x magnitude; g++ -O2; the Python harness.",
         "DESIGN.md section 6 / C03"),
+    "C04": (
+        "Coq proof of dimensional homogeneity: the mass-action term of any order and the Bernstein exchange term scale by exactly the factor of amount/time under any change of units system, bare-number re-scaling and conversion preserve SI, the default state depends on SI density and volume only + metamorphic correspondence on dictionary re-descriptions",
+        "Theorems (Props/C04.v, closed under the global context; any two of the 1100 units systems): a bare number multiplied by the "
+        "conversion factor and declared in the other system has the same SI value, conversion keeps SI; the factor of n x dimension is the "
+        "n-th power of the factor; k V prod (x_s/V)^(n_s) computed from constant, volume and amounts expressed in another system - any "
+        "order, any number of reactant species, repeated reactants - equals the original times the factor of amount/time (uses that the "
+        "constant's dimension is length^(3n-3) time^-1 amount^(1-n), C19); the same for Dint(h_i,h_j,D_i,D_j) S/d (x_j/V_j - x_i/V_i) incl. "
+        "zero diffusivities; equal SI density and volume give equal SI default amounts. Hence the rate of change and each Euler step "
+        "computed in any engine / output units differ by exactly that scale factor. Tied to the code on every run: random systems described "
+        "as dictionaries with a units declaration at every level (script, system, network, space, species, reaction, node, edge), five "
+        "re-descriptions each (bare numbers re-scaled to new systems at every level; all bare numbers incl. time step, t_max, interval and "
+        "requested times made explicit and all declarations scrambled; one system declared at the top and inherited; script/output units "
+        "changed), loaded with rdscript_from_dict; state, chemostats, compute_dstatedt and a 2-6 step Euler trajectory compared in SI.",
+        "Trusted: Coq kernel + VM; the tie between these algebraic theorems and the code is the C01 model (engine tables in engine units, "
+        "tied there) plus this metamorphic correspondence (120 systems x 5 re-descriptions quick, 2500 thorough); comparison at relative "
+        "1e-6 plus an absolute floor of 1e-9 x (largest amount)/(time step) for cancelling sums; requested times and t_max are placed half a "
+        "step away from step times so that re-scaling rounding cannot flip a comparison; systems with astronomically large or small rates "
+        "are regenerated.",
+        "DESIGN.md section 6 / C04"),
     "C05": (
         "Coq proof that the operator model is a homomorphism into SI arithmetic (induction over expression trees) + dispatch-path correspondence",
         "Theorems (Props/C05.v, closed under the global context): for every expression tree over numbers, quantities and arrays with "
